@@ -256,7 +256,7 @@ Proof.
   now rewrite oget_single.
 Qed.
 
-(* ---------------------------------------------------------------- shift_lead_n, n >= 2: short groups (fix: b0d126048: the
+(* ---------------------------------------------------------------- shift_lead_n, n >= 2: short groups (fix: 1cf092ed2: the
    drain keeps shifting until the group's oldest pending record is at the window centre; before it these records were lost) *)
 Lemma shift_lead_short_group_is_emitted :
   verb_step [(SShiftLead 2, B "shift_lead_2")] [B "x"] [] [[(B "x", B "1")]]
